@@ -15,3 +15,5 @@ def check(rep, tier):
     rep.run(tracer_ftba.run_unbounded, rep, tier)
     from contracts import diffops
     rep.run(diffops.run_nary, rep, tier, clauses=("UN-reentrant",))
+    from contracts import core_rules
+    rep.run(core_rules.run, rep, tier, parts=("nodes",))
